@@ -68,6 +68,7 @@ type ServerSide struct {
 	MiddlewareOps  int    `json:"middleware_calls"`
 	ServerSaw      string `json:"server_saw,omitempty"`
 	MiddlewareSaw  string `json:"middleware_saw,omitempty"`
+	ErrBody        string `json:"err_body,omitempty"`
 	Middleware2Saw string `json:"middleware2_saw,omitempty"`
 	SecurityCalls  int    `json:"security_calls"`
 	Allow          string `json:"allow,omitempty"`
